@@ -167,6 +167,13 @@ func runC17Shard(x *simkit.Exec) {
 			si := x.Draw("faultstore", len(ds.Stores))
 			r.faults[si] = []faultPlan{{Mode: "refuse"}, {Mode: "fail", K: x.Draw("failk", 3)}, {Mode: "stall", K: x.Draw("stallk", 2)}}[x.Draw("faultmode", 3)]
 		}
+		if x.Bool("deafstore", 1, 3) {
+			// one more store keeps delivering after the request has cancelled its stream
+			si := x.Draw("deafstore.i", len(ds.Stores))
+			if _, taken := r.faults[si]; !taken {
+				r.faults[si] = faultPlan{Mode: "deaf"}
+			}
+		}
 		r.abort = x.Bool("abort", 1, 2)
 		r.batch = []int64{0, 2}[x.Draw("batch", 2)]
 		reqs = append(reqs, r)
@@ -175,11 +182,16 @@ func runC17Shard(x *simkit.Exec) {
 
 	rec := &putRecorder{puts: map[*[]byte]int{}}
 	yieldUse := x.Bool("yielduse", 1, 2)
+	letTimePass := x.Bool("lettimepass", 1, 3)
 	x.Bubble("shard", func(s *simkit.Sim) {
 		verifhook.Set(&verifhook.Hooks{Event: rec.event})
 		defer verifhook.Set(nil)
 		cl := newCluster(s, ds, pc)
 		s.MaxSteps = 8000
+		if letTimePass {
+			// the scheduler may let more than a response timeout pass instead of releasing an operation
+			s.Delays = []time.Duration{pc.Timeout + time.Millisecond}
+		}
 		ctx, cancel := context.WithCancel(context.Background())
 		defer cancel()
 		if yieldUse {
